@@ -47,7 +47,7 @@ def rand_poly(rng, maxlen, p=R_BLS381):
         return [rf_uniform(rng, p) for _ in range(n)], shape
     if shape == "lowzeros":
         n = rng.randint(1, maxlen)
-        k = rng.randint(0, n - 1)
+        k = rng.randint(1, n - 1) if n >= 2 else 0
         return [0] * k + [rf_uniform(rng, p) for _ in range(n - k)], shape
     if shape == "highzeros":
         n = rng.randint(1, maxlen)
